@@ -47,8 +47,8 @@ type job func()
 func main() {
 	r := mon.Start("C04", "exploration")
 	r.Rule = "case = (file written by age.Encrypt, list of 1-4 identities none of which corresponds to a recipient of it); " +
-		"non-trivial = the reference implementation confirmed on the same bytes that no identity of the list matches, " +
-		"age.Decrypt was called and its return values were judged; distinct by (stage, how the file was made, armor, identity list)"
+		"non-trivial = the public halves of the identities (computed from key material) are disjoint from the recipients handed to Encrypt, " +
+		"age.Decrypt was called and its return values were judged (the reference's verdict on the same bytes is recorded as a diagnosis); distinct by (stage, how the file was made, armor, identity list)"
 	r.Assumptions = []string{
 		"files are those age.Encrypt writes (well-formed headers); hostile headers belong to C03/C10/C14",
 		"scrypt work factors 1-10 (cost only)",
@@ -87,6 +87,9 @@ func main() {
 			r.Inconclusive("counter %s is zero: that part of the workload did not run", c)
 		}
 	}
+	if n := r.Counter("premise_failures_unexplained"); n > 0 {
+		r.Inconclusive("%d cases whose premise could not be established or explained", n)
+	}
 	r.Finish()
 }
 
@@ -95,12 +98,15 @@ func main() {
 // reference must open the file to the same plaintext (so the file really is a
 // well-formed file for those recipients and "nobody else can open it" is not
 // vacuous). Returns nil if the library refused to encrypt.
-func (m *monitor) encryptCase(desc, kinds string, pt []byte, armored bool, opener refage.Key, rcpts ...age.Recipient) (*fileCase, error) {
+func (m *monitor) encryptCase(desc, kinds string, pt []byte, armored bool, opener refage.Key, want []string, rcpts ...age.Recipient) (*fileCase, error) {
 	bin, err := ax.Encrypt(pt, false, rcpts...)
 	if err != nil {
 		return nil, err
 	}
-	f := &fileCase{desc: desc, kinds: kinds, bin: bin, pt: pt}
+	f := &fileCase{desc: desc, kinds: kinds, bin: bin, pt: pt, want: map[string]bool{}}
+	for _, w := range want {
+		f.want[w] = true
+	}
 	if armored {
 		t, err := armorOf(bin)
 		if err != nil {
@@ -191,7 +197,7 @@ func (m *monitor) mixFile(li int, list []string, fi, idListsPer int) {
 		}
 	}
 	desc := fmt.Sprintf("mix list=%s len=%d #%d", keys.Names(parties), n, fi)
-	f, err := m.encryptCase(desc, kindSet(parties), pt, armored, opener, keys.Recipients(parties)...)
+	f, err := m.encryptCase(desc, kindSet(parties), pt, armored, opener, wantOf(parties), keys.Recipients(parties)...)
 	if err != nil {
 		r.Inconclusive("%s: could not be prepared: %v", desc, err)
 		return
@@ -306,17 +312,20 @@ func (m *monitor) nearMissPub(oi int, owner *keys.X, k int, other *keys.X) {
 	layout := (k + oi) % 3
 	var rcpts []age.Recipient
 	var opener refage.Key
+	want := []string{xHalf(p2)}
 	switch layout {
 	case 0:
 		rcpts = []age.Recipient{rc}
 	case 1:
 		rcpts, opener = []age.Recipient{rc, other.Recipient()}, other.Ref
+		want = append(want, xHalf(other.Public))
 	default:
 		rcpts, opener = []age.Recipient{other.Recipient(), rc}, other.Ref
+		want = append(want, xHalf(other.Public))
 	}
 	pt := mon.DetBytes(fmt.Sprintf("c04-nmp-%d-%d-%d", r.Seed, oi, k), 1+(k*37+oi)%300)
 	desc := fmt.Sprintf("nearmiss-pub owner=%s k=%d recipient=%s layout=%d", owner.Label, k, s, layout)
-	f, err := m.encryptCase(desc, "X", pt, (k+oi)%5 == 0, opener, rcpts...)
+	f, err := m.encryptCase(desc, "X", pt, (k+oi)%5 == 0, opener, want, rcpts...)
 	if err != nil {
 		// Wrap refuses low-order points; nothing to decrypt then
 		r.Count("nearmiss_pub_wrap_refused", 1)
@@ -393,12 +402,14 @@ func (m *monitor) nearMissSecret(oi int, owner *keys.X, other *keys.X) {
 	var files []*fileCase
 	for v := 0; v < 2; v++ {
 		rcpts := []age.Recipient{owner.Recipient()}
+		want := []string{xHalf(owner.Public)}
 		if v == 1 {
 			rcpts = []age.Recipient{other.Recipient(), owner.Recipient()}
+			want = append(want, xHalf(other.Public))
 		}
 		pt := mon.DetBytes(fmt.Sprintf("c04-nms-%d-%d-%d", r.Seed, oi, v), 50+oi+v)
 		desc := fmt.Sprintf("nearmiss-secret recipient=%s recipients=%d", owner.PublicStr, len(rcpts))
-		f, err := m.encryptCase(desc, "X", pt, v == 1 && oi%2 == 0, owner.Ref, rcpts...)
+		f, err := m.encryptCase(desc, "X", pt, v == 1 && oi%2 == 0, owner.Ref, want, rcpts...)
 		if err != nil {
 			r.Inconclusive("%s: could not be prepared: %v", desc, err)
 			return
@@ -475,24 +486,23 @@ func (m *monitor) stagePassphrase() []job {
 		jobs = append(jobs, func() {
 			pt := mon.DetBytes(fmt.Sprintf("c04-pass-%d-%d", r.Seed, bi), 10+bi)
 			desc := fmt.Sprintf("passphrase base=%q (%s) logN=%d", b.pass, b.label, b.logN)
-			f, err := m.encryptCase(desc, "S", pt, bi%3 == 0, refage.ScryptKey{Pass: b.pass}, keys.ScryptRecipient(b.pass, b.logN))
+			f, err := m.encryptCase(desc, "S", pt, bi%3 == 0, refage.ScryptKey{Pass: b.pass}, []string{passHalf(b.pass)}, keys.ScryptRecipient(b.pass, b.logN))
 			if err != nil {
 				r.Inconclusive("%s: could not be prepared: %v", desc, err)
 				return
 			}
-			// A trailing NUL is not another key: scrypt's PBKDF2 uses the
-			// passphrase as an HMAC key, and HMAC pads short keys with zero
-			// bytes, so p and p+"\x00" derive the same wrapping key in every
-			// implementation of the format. Like the clamped bits of an X25519
-			// secret such variants are dropped — but only after the reference
-			// has confirmed on this very file that the variant opens it.
+			// A passphrase whose HMAC key equals the base's is not another
+			// key: scrypt's PBKDF2 uses the passphrase as an HMAC key, and HMAC
+			// pads short keys with zero bytes, so p and p+"\x00" derive the
+			// same wrapping key in every implementation of the format. Like
+			// the clamped bits of an X25519 secret such variants are dropped,
+			// decided on the key material alone (passHalf), never on the file.
 			kept := vars[:0:0]
 			for _, v := range vars {
-				if v.class == "trailing-nul" {
-					if o, err := refage.Decrypt(f.bin, refage.ScryptKey{Pass: v.pass}); err == nil && bytes.Equal(o.Plaintext, pt) {
-						r.Count("passphrase_variants_dropped_same_scrypt_key(trailing NUL)", 1)
-						continue
-					}
+				if passHalf(v.pass) == passHalf(b.pass) {
+					r.Count("passphrase_variants_dropped_same_hmac_key", 1)
+					r.Tab("passphrase_variant_dropped_class", v.class)
+					continue
 				}
 				kept = append(kept, v)
 			}
@@ -558,7 +568,7 @@ func (m *monitor) stageTypeMatrix() []job {
 				}
 				pt := mon.DetBytes(fmt.Sprintf("c04-tm-%d-%d", r.Seed, li), 33+li)
 				desc := fmt.Sprintf("type-matrix list=%s", keys.Names(parties))
-				f, err := m.encryptCase(desc, kindSet(parties), pt, a == 1, opener, keys.Recipients(parties)...)
+				f, err := m.encryptCase(desc, kindSet(parties), pt, a == 1, opener, wantOf(parties), keys.Recipients(parties)...)
 				if err != nil {
 					r.Inconclusive("%s: could not be prepared: %v", desc, err)
 					return
@@ -627,13 +637,15 @@ func (m *monitor) stageSSHSameType() []job {
 		jobs = append(jobs, func() {
 			a := freshEd(fmt.Sprintf("same-%d-%d-a", r.Seed, i))
 			rcpts := []age.Recipient{a.rcpt}
+			want := []string{a.id.half}
 			desc := fmt.Sprintf("ssh-same-type ed25519 recipient=fresh(%s)", a.label)
 			if i%3 == 1 {
+				want = append(want, partyHalf("E1"))
 				rcpts = append(rcpts, keys.P("E1").Recipient)
 				desc += "+E1"
 			}
 			pt := mon.DetBytes(fmt.Sprintf("c04-sst-%d-%d", r.Seed, i), 20+i)
-			f, err := m.encryptCase(desc, "E", pt, i%4 == 0, a.ref, rcpts...)
+			f, err := m.encryptCase(desc, "E", pt, i%4 == 0, a.ref, want, rcpts...)
 			if err != nil {
 				r.Inconclusive("%s: could not be prepared: %v", desc, err)
 				return
@@ -654,7 +666,7 @@ func (m *monitor) stageSSHSameType() []job {
 			o1, o2 := rsaNames[(i+1)%3], rsaNames[(i+2)%3]
 			pt := mon.DetBytes(fmt.Sprintf("c04-sstr-%d-%d", r.Seed, i), 20+i)
 			desc := fmt.Sprintf("ssh-same-type rsa recipient=%s #%d", to, i)
-			f, err := m.encryptCase(desc, "R", pt, i%2 == 1, keys.P(to).Ref, keys.P(to).Recipient)
+			f, err := m.encryptCase(desc, "R", pt, i%2 == 1, keys.P(to).Ref, []string{partyHalf(to)}, keys.P(to).Recipient)
 			if err != nil {
 				r.Inconclusive("%s: could not be prepared: %v", desc, err)
 				return
